@@ -201,7 +201,7 @@ def write_evidence(pid, tier, rec, rule, assumptions, wall_s, violations, level=
         'violations': violations,
     }
     out = OUT / 'evidence'
-    out.mkdir(exist_ok=True)
+    out.mkdir(parents=True, exist_ok=True)
     (out / f'{pid}.json').write_text(json.dumps(ev, indent=1, default=repr) + '\n')
     return ev
 
